@@ -490,6 +490,10 @@ def doc_verdict(ops, il):
             known = "C16-tablelike-insert-none-panics" if (f[0] == "tlins" and f[3] == "N") else None
             return "doc: call %d `%s` panicked" % (n + 1, c), known
     view = _parse_view(d["view"])
+    if d.get("tl", "ok") not in ("ok", "P"):
+        # a raw table stored inside an inline table (known class) also makes that inline table's view inconsistent
+        return ("doc: the TableLike view of a node disagrees with itself: %s" % d["tl"],
+                "C16-inline-read-panics-on-non-value" if _raw_in_inline(view) else None)
     if d["text"] == "P":
         return ("doc: to_string() panicked (root item: %s)" % d["view"][:40],
                 "C16-root-not-a-table-print-panics" if view[0] != "T" else None)
